@@ -15,6 +15,7 @@ EXPLANATION = (
     "closure of every query entry point contains no mutator; H6 operations on next_blob_id are load/fetch_add, stores only under "
     "&mut Storage with failed-blob ids and quarantine-dir ids among the origins; H7 the quarantined blob path only flows into "
     "rename (as source) and the index remover. Decides this ownership/effect structure, not the byte comparison itself.")
+EXPLANATION += (" " + 'H6 also requires that two id sources meeting on the way into the counter are joined by max, not by a selector such as or / unwrap_or / min.')
 ASSUMPTIONS = ["class-hierarchy call resolution over-approximates reachability (closures attributed at construction)"]
 
 MOD_OWNERS = {
@@ -362,6 +363,28 @@ def h6(ctx, rid):
                 ctx.ok(rid, key + '|quarantine-ids', c.where(), 'origins include ids of files already in the quarantine directory')
             else:
                 ctx.bad(rid, key + '|quarantine-ids', c.where(), 'ids of blobs sitting in the quarantine directory are not among the origins of the id counter: after a restart such an id is handed out again and a later quarantine renames over the preserved file')
+    # H6e: the sources are joined by a maximum - a selector that prefers one source (`or`, `unwrap_or`, `min`, ..) stores an id
+    # below one that is in use as soon as the preferred source is the smaller one
+    SELECTORS = ('or', 'or_else', 'xor', 'and', 'min', 'unwrap_or', 'unwrap_or_else', 'unwrap_or_default', 'min_by', 'min_by_key', 'zip')
+    ID_TARGETS = ('blob::file_name::FileName::id', 'blob::core::Blob::<K>::id')
+    for (f, c, key) in stores:
+        dst = op_local(c.args[1])
+        for c2 in f.calls:
+            if c2.name not in SELECTORS or c2.bb not in f.reachable():
+                continue
+            if dst not in core.flows_forward(f, c2.dest[0]):
+                continue
+            carrying = 0
+            for a in c2.args:
+                ogs = core.origins_deep(prog, f, a, depth=3)
+                if any(o.kind == 'call' and o.data.target in ID_TARGETS for o in ogs):
+                    carrying += 1
+            if carrying >= 2:
+                ctx.bad(rid, key + '|joined-by-max', c2.where(), 'two sources of blob ids are combined with `%s` on the way into the id counter: it prefers one source instead of taking the maximum, so an id that is in use (in the work dir or in the quarantine dir) can be handed out again' % c2.name)
+                break
+        else:
+            if any(c2.name == 'max' and dst in core.flows_forward(f, c2.dest[0]) for c2 in f.calls):
+                ctx.ok(rid, key + '|joined-by-max', c.where(), 'id sources joined with max', nontrivial=False)
     if n < 3:
         raise core.AnchorLost('next_blob_id uses: %d' % n)
 
